@@ -397,7 +397,7 @@ class FactFlow:
         self.kill = kill
         self.gen = gen
         self.before, self.block_in, self.block_out = forward(
-            fn, frozenset(), self._transfer, self._edge, lambda a, b: a & b, eh=eh)
+            fn, frozenset(), self._transfer, self._edge, lambda a, b: a & b, eh=eh, edge_raw=self._edge_raw)
 
     def _transfer(self, st, ev, pos):
         if st:
@@ -423,6 +423,14 @@ class FactFlow:
         truth = (label == "true") == pos
         # an assignment inside the condition is already accounted for by _transfer
         return frozenset(f for f in st if f[0] != atom) | {(atom, truth)}
+
+    def _edge_raw(self, st, blk, raw):
+        # switch edges: 'case C' establishes cond == C
+        if raw.get("label") == "case" and blk.cond is not None and raw.get("case") is not None:
+            a, b = sorted([P(blk.cond), P(raw["case"])])
+            atom = "%s == %s" % (a, b)
+            return frozenset(f for f in st if f[0] != atom) | {(atom, True)}
+        return st
 
     def facts_before(self, pos):
         return self.before.get(pos)
@@ -730,3 +738,120 @@ def loop_of(fn, block_id):
             if len(c) > 1 or any(t == block_id for _, t in fn.succs(block_id)):
                 return c
     return None
+
+
+def eval_walk(fn, start_block, atom_env=None, tree_env=None, limit=400, max_paths=64):
+    """Walk from start_block deciding every conditional leaf by atom_env (atom -> bool, through
+    cond_atoms) or by eval_tree over tree_env; leaves that neither decides (logging levels, ...) are
+    explored both ways.  Returns a list of (events visited, end) with end in
+    'return'/'exit'/'throw'/'noreturn'/'loop'."""
+    atom_env = atom_env or {}
+    tree_env = tree_env or {}
+    results = []
+
+    def go(b, seen, out, budget):
+        while True:
+            if budget[0] <= 0:
+                results.append((out, "limit"))
+                return
+            budget[0] -= 1
+            if b in seen:
+                results.append((out, "loop"))
+                return
+            seen = seen | {b}
+            blk = fn.blocks[b]
+            for i, ev in enumerate(blk.events):
+                out = out + [(b, i, ev)]
+                if ev.get("k") == "return":
+                    results.append((out, "return"))
+                    return
+                if ev.get("k") == "throw":
+                    results.append((out, "throw"))
+                    return
+            if blk.term.get("noreturn"):
+                results.append((out, "noreturn"))
+                return
+            succ = blk.succ
+            if not succ:
+                results.append((out, "exit"))
+                return
+            if len(succ) == 1:
+                b = succ[0][1]
+                continue
+            labels = [l for l, _, _ in succ]
+            if "true" in labels and blk.cond is not None:
+                atom, pos = cond_atoms(blk.cond)
+                truth = None
+                if atom in atom_env:
+                    truth = atom_env[atom] == pos
+                else:
+                    try:
+                        truth = bool(eval_tree(blk.cond, tree_env))
+                    except Unknown:
+                        truth = None
+                if truth is None:
+                    if len(results) < max_paths:
+                        for l, t, _ in succ:
+                            go(t, seen, out, budget)
+                    return
+                b = [t for l, t, _ in succ if l == ("true" if truth else "false")][0]
+                continue
+            if any(l in ("case", "default", "default_implicit") for l in labels):
+                try:
+                    v = eval_tree(blk.cond, tree_env)
+                    nxt = None
+                    for l, t, raw in succ:
+                        if l == "case" and eval_tree(raw["case"], tree_env) == v:
+                            nxt = t
+                    if nxt is None:
+                        d = [t for l, t, _ in succ if l.startswith("default")]
+                        nxt = d[0] if d else None
+                    if nxt is None:
+                        results.append((out, "exit"))
+                        return
+                    b = nxt
+                    continue
+                except Unknown:
+                    for l, t, _ in succ:
+                        go(t, seen, out, budget)
+                    return
+            for l, t, _ in succ:
+                go(t, seen, out, budget)
+            return
+    go(start_block, frozenset(), [], [limit * 10])
+    return results
+
+
+def cond_leaves(fn, blocks=None):
+    """All (block, atom, positive) condition leaves of two-way branches."""
+    out = []
+    for b, blk in fn.blocks.items():
+        if blocks is not None and b not in blocks:
+            continue
+        if blk.cond is not None and any(l == "true" for l, _, _ in blk.succ):
+            a, p = cond_atoms(blk.cond)
+            out.append((b, a, p))
+    return out
+
+
+def on_every_cycle(fn, loop, block_id):
+    """Does every cycle inside `loop` (a set of blocks) pass through block_id?"""
+    rest = set(loop) - {block_id}
+    # any cycle within rest?
+    color = {}
+
+    def dfs(v):
+        color[v] = 1
+        for _, w in fn.succs(v):
+            if w not in rest:
+                continue
+            if color.get(w) == 1:
+                return True
+            if w not in color and dfs(w):
+                return True
+        color[v] = 2
+        return False
+    for v in rest:
+        if v not in color and dfs(v):
+            return False
+    return True
